@@ -336,7 +336,7 @@ def evaluate(m, procs, tier="quick", known_tests_pass=False, depth=99):
         if not tests_pass:
             res["verdict"] = "killed_by_repo_tests"
             return res
-        env = dict(os.environ, VERIF_REPO=wt, VERIF_OUT=out, VERIF_FAILFAST="1", VERIF_PROCS=str(procs), VERIF_TASK_LIMIT="900")
+        env = dict(os.environ, VERIF_REPO=wt, VERIF_OUT=out, VERIF_FAILFAST="1", VERIF_PROCS=str(procs), VERIF_TASK_LIMIT="900", VERIF_TIME_CAP=os.environ.get("MUT_TIME_CAP", "45"))
         res["checks"] = {}
         for c in (m.get("checks") or relevant(m))[:depth]:
             t0 = time.time()
